@@ -6,8 +6,9 @@ CONSTANTS
   Atoms <- AtomsQ2
   Prefix <- PfxQ
   MaxLen = 12
+  MaxAtoms = 99
   Cfgs <- CfgsNA8
   Junk = 34
   EmitOn = TRUE
-INVARIANTS ResumeEqFresh Stable OffsSane Emit
+INVARIANTS ResumeEqFresh Stable OffsSane Emit EmitTwo EmitByte
 CHECK_DEADLOCK FALSE
